@@ -99,12 +99,20 @@ def install(I):
         f = _arg(args, kwargs, 0, 'f')
         x = _arg(args, kwargs, 1, 'xdata')
         y = _arg(args, kwargs, 2, 'ydata')
-        if not isinstance(f, FuncRef):
+        # the parameters curve_fit fits: those of the model function after the first (inspect.signature semantics: a
+        # functools.partial hides the arguments it binds)
+        base, bound_pos, bound_kw = f, 0, set()
+        while hasattr(base, 'partial'):
+            base, pa_, pk_ = base.partial
+            bound_pos += len(pa_)
+            bound_kw |= set(pk_)
+        if not isinstance(base, FuncRef):
             raise Unsupported('curve_fit model function is not resolvable', n)
-        a_ = f.fn.args
+        a_ = base.fn.args
         names = [q.arg for q in a_.posonlyargs + a_.args]
-        if f.self_obj is not None and names and names[0] in ('self', 'cls'):
+        if base.self_obj is not None and names and names[0] in ('self', 'cls'):
             names = names[1:]
+        names = [q for q in names[bound_pos:] if q not in bound_kw]
         if a_.vararg is not None:
             p0 = kwargs.get('p0')
             if not isinstance(p0, ListV):
@@ -164,6 +172,8 @@ def install(I):
 
     def isclose(I_, fr, args, kwargs, n):
         a, b = args[0], args[1]
+        if isinstance(a, Elem) and isinstance(a.r, Rat) and isinstance(b, Rat):
+            return Elem(isclose(I_, fr, [a.r, b] + list(args[2:]), kwargs, n))      # element by element
         if isinstance(a, Rat) and isinstance(b, Rat) and not a.eq(b) and (b.is_const() or b.iszero()):
             ks = {I_.data_kind.get(x) for x in a.atoms()}
             if ks and ks <= {'generic', 'const', 'nan'} and a.is_monomial():
